@@ -20,6 +20,8 @@ const HUGE: usize = 1 << 40;
 pub struct C05 {
     pub ctx: WorldCtx,
     sweep: Vec<(Exp, Dir, usize)>,
+    /// multiples of 256 and their neighbours: one run each (the reader flavour / entry point combination rotates)
+    sweep256: Vec<(Exp, Dir, usize)>,
 }
 
 impl C05 {
@@ -37,7 +39,15 @@ impl C05 {
         for l in [0xFFF8usize, 0x10000, 0x10002, 0x10100, 0x13886, 0x20000, 0x27106, 0x40000, 0x100000] {
             sweep.push((Exp::Wrath, Dir::Server, l + HUGE));
         }
-        C05 { ctx: WorldCtx::new(), sweep }
+        let mut sweep256 = Vec::new();
+        for e in Exp::ALL {
+            for d in [Dir::Client, Dir::Server] {
+                for l in crate::c02::sweep_lengths_256(e, d) {
+                    sweep256.push((e, d, l));
+                }
+            }
+        }
+        C05 { ctx: WorldCtx::new(), sweep, sweep256 }
     }
 }
 
@@ -75,7 +85,7 @@ impl Check for C05 {
                "not_exercised": ["SRP key agreement itself (session key is chosen by the simulator)"]})
     }
     fn plan(&self, tier: Tier) -> (u64, u64) {
-        (self.sweep.len() as u64 * 6, match tier {
+        (self.sweep.len() as u64 * 6 + self.sweep256.len() as u64, match tier {
             Tier::Quick => env_u64("VERIF_C05_RUNS", 40_000),
             Tier::Thorough => env_u64("VERIF_C05_RUNS", 2_000_000),
         })
@@ -85,11 +95,16 @@ impl Check for C05 {
         let mut wl = rng.fork("workload");
         let mut sr = rng.fork("schedule");
         let mut cf = rng.fork("config");
-        if i < self.sweep.len() as u64 * 6 {
+        if i < self.sweep.len() as u64 * 6 + self.sweep256.len() as u64 {
             // enumerated: every body length around every header-form boundary, as the MIDDLE message of an encrypted
-            // sequence, through each reader flavour and both entry points (the writer flavour rotates along)
-            let (exp, dir, len) = self.sweep[(i / 6) as usize];
-            let combo = i % 6;
+            // sequence, through each reader flavour and both entry points (the writer flavour rotates along); then every
+            // multiple of 256 with its neighbours once, the combination rotating
+            let ((exp, dir, len), combo) = if i < self.sweep.len() as u64 * 6 {
+                (self.sweep[(i / 6) as usize], i % 6)
+            } else {
+                let j = i - self.sweep.len() as u64 * 6;
+                (self.sweep256[j as usize], (j / 3) % 6)
+            };
             let fl = [Flavour::Sync, Flavour::Tokio, Flavour::Astd][(combo % 3) as usize];
             let wfl = [Flavour::Astd, Flavour::Sync, Flavour::Tokio][(combo % 3) as usize];
             let entry = if combo < 3 { "enum" } else { "expect" };
